@@ -471,3 +471,67 @@ func ZZ_C07_assignment_targets() {
 	zz.Assertf(once, "C07.assignment-target/index-operands-evaluated-once/"+f.name, f.src)
 	zz.Assertf(inc, "C07.assignment-target/index-operands-left-to-right/"+f.name, f.src)
 }
+
+type zzPriv struct {
+	Pub  int64
+	priv int64
+}
+
+// ZZ_C07_callee_outcomes: the operands of a call are evaluated once and the
+// callee's body runs once whatever the body then does: returns, fails with a
+// run-time error, throws, or ends in a Go panic that the interpreter recovers
+// (reading an unexported field of a host struct into a list panics inside
+// reflect).  Script functions of 0..6 parameters and variadic ones, called by
+// name, through a variable, inside a list, on the left of ??.
+func ZZ_C07_callee_outcomes() {
+	e := zzOrderEnv()
+	e.Define("s", zzPriv{Pub: 1, priv: 3})
+	np := zz.Choose(8) // 0..6 fixed parameters, 7: variadic
+	bodies := []string{"return 7", "return 1 % 0", "throw \"t\"", "return [s.priv]", "return pbad(98)", "x = [s.priv]; return 1"}
+	bi := zz.Choose(len(bodies))
+	params := []string{"", "a", "a, b", "a, b, c", "a, b, c, d", "a, b, c, d, e", "a, b, c, d, e, g", "a..."}[np]
+	n := np
+	if np == 7 {
+		n = 2
+	}
+	args := ""
+	for i := 0; i < n; i++ {
+		if i > 0 {
+			args += ", "
+		}
+		args += "p(" + string(rune('0'+i)) + ")"
+	}
+	call := "f(" + args + ")"
+	form := zz.Choose(4)
+	src := "f = func(" + params + ") { p(99); " + bodies[bi] + " }\n" +
+		[]string{"r = " + call, "r = [p(50), " + call + ", p(51)]", "r = " + call + " ?? p(60)", "func g() { return " + call + " }; r = g()"}[form]
+	zz.ResetTrace()
+	zz.Budget(400000)
+	_, err := Execute(e, &Options{Debug: false}, src)
+	fails := bi != 0
+	id := []string{"returns", "runtime-error", "throws", "recovered-go-panic", "go-function-panics-inside", "recovered-go-panic-in-statement"}[bi] + "/" +
+		[]string{"0", "1", "2", "3", "4", "5", "6", "variadic"}[np] + "/" + []string{"assignment", "in-list", "left-of-??", "in-function"}[form]
+	var want []int
+	if form == 1 {
+		want = append(want, 50)
+	}
+	for i := 0; i < n; i++ {
+		want = append(want, i)
+	}
+	want = append(want, 99)
+	if bi == 4 {
+		want = append(want, 98)
+	}
+	switch form {
+	case 1:
+		if !fails {
+			want = append(want, 51)
+		}
+	case 2:
+		if fails {
+			want = append(want, 60)
+		}
+	}
+	zz.Assertf((err != nil) == (fails && form != 2), "C07.callee-outcome/error-status/"+id, src)
+	zz.Assertf(zzSameTrace(zz.Trace(), want), "C07.callee-outcome/operands-and-body-once/"+id, src)
+}
